@@ -117,6 +117,19 @@ fn main() {
         });
         sink.merge(sd);
     }
+    // lists of enumerated values (signature algorithms, certificate types, cipher suites, compression methods, groups,
+    // versions, modes) whose bytes happen to be another well-formed structure: every value is still returned as it is
+    {
+        let (msgs, exts) = vcommon::catalogue::enum_lists_with_foreign_content();
+        for (t, items) in [(&MSG_HANDSHAKE, &msgs), (&EXTENSION, &exts)] {
+            for w in items {
+                if matches!((t.reference)(&w.buf), Ref::Must(..)) {
+                    let (g, _) = check_case(run.prop, t, &w.buf, &mut sink);
+                    sink.count("enumerated lists with foreign content", if g.is_ok() { "accepted" } else { "REJECTED" });
+                }
+            }
+        }
+    }
     // encrypted_server_name: suite x group (registered or not, in every combination) x field sizes; key_share: group x size
     {
         let mut k = vcommon::catalogue::esni_grid();
